@@ -104,7 +104,60 @@ def plan_C17(c):
 
 
 def plan_C19(c):
+    # MC: all interleavings of the mode machine; the negative controls must be rejected
+    c.mc('MC_Modes', cfg='MC_Modes_ok' if c.tier == 'quick' else 'MC_Modes_ok_thorough')
+    c.mc('MC_Modes', cfg='MC_Modes_global', expect='violation')
+    c.mc('MC_Modes', cfg='MC_Modes_inherit', expect='violation')
+    # G: every complete schedule of the model replayed with one real thread per model thread, in lock-step
+    for cfg in (['MC_Modes_gen_quick', 'MC_Modes_gen_allmodes'] if c.tier == 'quick' else ['MC_Modes_gen_thorough', 'MC_Modes_gen_allmodes']):
+        scheds = c.generate('MC_Modes', prefix='SCHED', cfg=cfg)
+        replay_schedules(c, scheds, cfg)
+    # V: free-running threads, internal mode reads (hook) gate
     v(c, 'threads:3:0', 6000, 60000, chunks=8)
+    if c.tier != 'quick':
+        v(c, 'threads:15:0', 6000, 200000, chunks=8)
+
+
+def replay_schedules(c, scheds, label):
+    import concurrent.futures as cf
+    b = c.binary()
+    nproc = 8
+    per = (len(scheds) + nproc - 1) // nproc
+    files = []
+    for i in range(nproc):
+        part = scheds[i * per:(i + 1) * per]
+        if not part:
+            continue
+        fn = os.path.join(c.work, 'S_%s_%d.ndjson' % (label, i))
+        with open(fn, 'w') as f:
+            f.write('\n'.join(part) + '\n')
+        files.append(fn)
+
+    def one(fn):
+        p = run_cmd([b, 'sched', fn], timeout=3600)
+        if p.returncode != 0:
+            raise ToolError('schedule replay failed: ' + p.stderr[-500:])
+        return [json.loads(l) for l in p.stdout.splitlines() if l.strip()]
+    with cf.ThreadPoolExecutor(max_workers=nproc) as ex:
+        outs = list(ex.map(one, files))
+    n = steps = 0
+    for o in outs:
+        for rec in o:
+            if 'summary' in rec:
+                n += rec['summary']['schedules']
+                steps += rec['summary']['steps']
+            else:
+                c.violations.append(('G:%s: the real threads deviate from the schedule generated from the specification' % label, [rec]))
+    c.cov.setdefault('schedules_replayed', 0)
+    c.cov['schedules_replayed'] += n
+    c.cov.setdefault('schedule_steps', 0)
+    c.cov['schedule_steps'] += steps
+    c.cov['evaluations'] += steps
+    c.cov['traces_validated_against_impl'] += n
+    if scheds and len(c.cov['samples']) < 8:
+        c.cov['samples'].append({'schedule': json.loads(scheds[len(scheds) // 2])})
+    for s in scheds:
+        c.keys.add(s)
 
 
 def plan_C20(c):
